@@ -116,8 +116,13 @@ def optimal_case(rng, tier, i):
     K = int(rng.integers(1, 7))
     lead = [(), (int(rng.integers(1, 6)),), (2, 2)][int(rng.integers(0, 3))]
     r = rng.random()
-    if r < 0.5:
+    if r < 0.4:
         S, kind = rng.normal(size=(*lead, K, K)) * 10.0 ** rng.integers(-2, 3), 'cont'
+    elif r < 0.55:
+        # totals that are nearly tied relative to their magnitude: a large common offset plus small integers
+        # (exact in binary64, so the maximum is still decided exactly)
+        off = float(rng.choice([1e6, 1e9, -1e7]))
+        S, kind = off + rng.integers(0, 6, (*lead, K, K)).astype(np.float64), 'offset'
     elif r < 0.75:
         S, kind = rng.integers(-3, 4, (*lead, K, K)).astype(np.float64), 'tiedfloat'
     else:
@@ -331,10 +336,12 @@ def evaluate_global(rp):
     return None, None, coq
 
 
-def global_case(rng, tier, i):
+def global_case(rng, tier, i, force=None):
     metric = pc.METRICS[int(rng.integers(0, 3))]
     algo = 'greedy' if rng.random() < 0.5 else 'optimal'
     K, F, T = int(rng.integers(1, 6)), pc.odd_F(rng, 1, 9), int(rng.integers(1, 6))
+    if force is not None:
+        metric, algo, K = force[0], force[1], int(force[2])
     for _ in range(20):
         kd = ['cont', 'binary', 'signed'][int(rng.integers(0, 3))]
         ref = gen_reference(rng, K, F, max(T, 2), kd)
@@ -343,6 +350,8 @@ def global_case(rng, tier, i):
     else:
         return None
     perm = rng.permutation(K)
+    if force is not None:
+        perm = np.roll(np.arange(K), 1 + int(rng.integers(0, K - 1)))       # a cycle of full length: not its own inverse for K >= 3
     rp = {'fn': 'global', 'ref': ref, 'perm': perm, 'metric': metric, 'algo': algo}
     fail, key, coq = evaluate_global(rp)
     name = 'oracle-global K=%d F=%d T=%d %s %s %s' % (K, F, ref.shape[2], kd, metric, algo)
@@ -368,6 +377,13 @@ def cases(rng, tier):
         c = global_case(rng, tier, i)
         if c is not None:
             out.append(c)
+    # every metric x algorithm meets a global permutation that is not an involution (K = 3, 4: cycles)
+    for rep in range(1 if q else 6):
+        for metric in pc.METRICS:
+            for algo in ('greedy', 'optimal'):
+                c = global_case(rng, tier, rep, force=(metric, algo, 3 + rep % 2))
+                if c is not None:
+                    out.append(c)
     return out
 
 
